@@ -348,9 +348,18 @@ end dns6
 
 namespace mtu
 abbrev Cfg := Int
-def setup (args : List ArgOracle) : Except Unit Cfg :=
+/-- the set-up as it was before the repair of D22: every number strconv.Atoi reads was accepted -/
+def setupOld (args : List ArgOracle) : Except Unit Cfg :=
   match single args with
   | some a => match a.int with | some n => .ok n | none => .error ()
+  | none => .error ()
+/-- option 26 carries an unsigned 16-bit number: anything else is refused (`mtu < 0 || mtu > math.MaxUint16`) -/
+def setup (args : List ArgOracle) : Except Unit Cfg :=
+  match single args with
+  | some a =>
+    match a.int with
+    | some n => if n < 0 ∨ n > 65535 then .error () else .ok n
+    | none => .error ()
   | none => .error ()
 def handle (cfg : Cfg) (req : ReqView4) (pre : Resp4) : Out4 :=
   (some (if requested4 req 26 then pre.update 26 (encU16 cfg) else pre), false)
@@ -384,11 +393,21 @@ end router
 
 namespace leasetime
 abbrev Cfg := Int
-/-- further arguments are ignored -/
-def setup (args : List ArgOracle) : Except Unit Cfg :=
+/-- the set-up as it was before the repair of D23: every duration time.ParseDuration reads was accepted -/
+def setupOld (args : List ArgOracle) : Except Unit Cfg :=
   match args with
   | [] => .error ()
   | a :: _ => match a.dur with | some d => .ok d | none => .error ()
+/-- further arguments are ignored. Option 51 carries an unsigned 32-bit number of seconds: a negative
+duration and one of more than 2^32-1 seconds are refused (`leaseTime < 0 || leaseTime >
+math.MaxUint32*time.Second`, in nanoseconds); parts of a second are accepted and not sent -/
+def setup (args : List ArgOracle) : Except Unit Cfg :=
+  match args with
+  | [] => .error ()
+  | a :: _ =>
+    match a.dur with
+    | some d => if d < 0 ∨ d > 4294967295 * 1000000000 then .error () else .ok d
+    | none => .error ()
 def handle (cfg : Cfg) (req : ReqView4) (pre : Resp4) : Out4 :=
   if req.op ≠ 1 then (some pre, false)
   else (some (if (lookup 51 pre.opts).isSome then pre else pre.update 51 (encSecs cfg)), false)
@@ -435,13 +454,26 @@ end staticroute
 namespace ipv6only
 /-- V6ONLY_WAIT in nanoseconds; 0 without argument -/
 abbrev Cfg := Int
-def setup (args : List ArgOracle) : Except Unit Cfg :=
+/-- the set-up as it was before the repair of D24: every duration time.ParseDuration reads was accepted -/
+def setupOld (args : List ArgOracle) : Except Unit Cfg :=
   match args with
   | [] => .ok 0
   | a :: rest =>
     match a.dur with
     | none => .error ()
     | some d => if rest = [] then .ok d else .error ()
+/-- option 108 carries an unsigned 32-bit number of seconds: a negative wait and one of more than
+2^32-1 seconds are refused (`dur < 0 || dur > math.MaxUint32*time.Second`), before the number of
+arguments is looked at; parts of a second are accepted and not sent -/
+def setup (args : List ArgOracle) : Except Unit Cfg :=
+  match args with
+  | [] => .ok 0
+  | a :: rest =>
+    match a.dur with
+    | none => .error ()
+    | some d =>
+      if d < 0 ∨ d > 4294967295 * 1000000000 then .error ()
+      else if rest = [] then .ok d else .error ()
 def handle (cfg : Cfg) (req : ReqView4) (pre : Resp4) : Out4 :=
   if listed4 req 108 then (some (pre.update 108 (encSecs cfg)), true) else (some pre, false)
 end ipv6only
